@@ -190,7 +190,8 @@ ASSUME SchedLemma ==
 (* ---------------- use (A): the contract state machine over the plans of the streams ---------------- *)
 CapPlan(plan) == TabTo(LAMBDA i : Min(plan[i], Cap), Len(plan))
 NoSc == <<0, "none", 0, {}, FALSE>>
-\* Stream!Init with Plans = the (capped) plans of the streams of this run
+\* Stream!Init with Plans = the (capped) plans of the streams of this run (written out: a configuration
+\* substitution Plans <- <definition of this module> made TLC hang while processing the constants)
 ContractInit == /\ \E k \in GenIds : \E plan \in {CapPlan(PlanTab[k])} :
                       sp = <<plan, Streams[k].probe>> /\ pos = 0 /\ d = DecStart(plan, Streams[k].probe)
                 /\ sc = NoSc
